@@ -427,6 +427,28 @@ func (e *env) run(kind string) (bool, string) {
 			return true, "ok"
 		}
 		return true, "err"
+	case "pingAsyncOK":
+		// an asynchronous ping that is answered; the function AsyncPing returned is never called - the answer ends the exchange
+		pong := make(chan struct{}, 1)
+		if _, err := cc.AsyncPing(func() {
+			select {
+			case pong <- struct{}{}:
+			default:
+			}
+		}); err != nil {
+			return true, "err"
+		}
+		q, ok := e.waitOut(func(d memnet.Dgram) bool { return d.Type == message.Confirmable && d.Code == int(codes.Empty) })
+		if !ok {
+			return false, "noping"
+		}
+		e.inject(message.Reset, codes.Empty, q.MID, nil, nil, nil)
+		select {
+		case <-pong:
+			return true, "ok"
+		case <-time.After(conns.WD):
+			return false, "nopong"
+		}
 	case "pingForget":
 		// a fire-and-forget liveness probe: AsyncPing whose cancel function is never called, the peer stays silent - the
 		// housekeeping sweep is the only thing that ends its continuation (after the retransmissions are exhausted)
